@@ -294,12 +294,22 @@ class TagIndex(Index):
     def to_key(self, value: tuple[str, str]) -> bytes:
         return b"%s%s\x00%s" % (self.prefix, value[0].encode(), value[1].encode())
 
+    @staticmethod
+    def _plain(value):
+        # a stored event comes back from msgpack with tuples where the
+        # submitted event had lists: both must give the same index key
+        if isinstance(value, (list, tuple)):
+            return [TagIndex._plain(v) for v in value]
+        if isinstance(value, dict):
+            return {k: TagIndex._plain(v) for k, v in value.items()}
+        return value
+
     def convert(self, event: Event):
         for tag in event.tags:
             if len(tag) >= 2 and (
                 len(tag[0]) == 1 or tag[0] in ("expiration", "delegation")
             ):
-                yield self.to_key((tag[0], str(tag[1])))
+                yield self.to_key((tag[0], str(self._plain(tag[1]))))
 
 
 class AuthorKindIndex(Index):
